@@ -229,6 +229,26 @@ func C01(run *Run) {
 			run.AddSample(map[string]any{"model": cs.Model.String(), "tuples": tupleStrings(cs.Tuples), "first_request": rec.Events[len(rec.Events)-1]})
 		}
 	}
+	// scripted shapes the random generator does not reach (subject types that cannot reach a userset's
+	// relation), on the production planner and on every forced strategy
+	for _, sc := range recursiveOtherUsersetCases() {
+		if err := env.Setup(ctx, sc.cs.Model, sc.cs.Tuples); err != nil {
+			run.Inconclusive("setup failed: %v (model %s)", err, sc.cs.Model)
+		}
+		ts, mg, err := env.Typesystem(ctx, sc.cs.Model)
+		if err != nil {
+			run.Inconclusive("typesystem: %v", err)
+		}
+		rec.Setup(sc.cs.SetupEv())
+		for _, q := range sc.reqs {
+			for _, eng := range []string{"server", "v1:default", "v1:weight2", "v1:recursive"} {
+				ev := &CheckEv{Eng: eng, O: q.O, R: q.R, U: q.U, Ctx: q.Ctx}
+				env.RunCheck(ctx, ev, ts, mg)
+				rec.Add(ev)
+				run.Evals++
+			}
+		}
+	}
 	sum := rec.Validate(run, 16)
 	run.Coverage["rule"] = "random stratified models over 4 types/≤5 relations/≤2 conditions validated by the real model validator; 5-16 tuples incl. wildcards, usersets, conditional tuples (full/partial/mistyped stored context) and leftover tuples invalid for the model; requests = sampled (object, relation, subject∈{objects, wildcard, usersets}, context); non-trivial = relation rewrite is not a bare direct assignment or its direct tuples include userset/wildcard/conditional tuples; distinct by hash(model, tuples, request)"
 	run.Coverage["cases"] = nCases
